@@ -294,4 +294,123 @@ theorem mpf_add_frame (s : St) (us vs : Src) (hs : s.ok = true) (hr : DestWF s.r
         · simp only [sw, decide_false, Bool.false_eq_true, if_false]
           exact addSameSign_safe s _ us vs hs hr hu hv (by omega)
 
+/-- rshift path: the high n limbs stored at rp[1, n], then the low limb at rp[0] -/
+theorem two_writes_hi_lo (L full : List Nat) (n : Nat) (hf : full.length = n + 1) (hL : n + 1 ≤ L.length) :
+    ((L.take 1 ++ full.drop 1 ++ L.drop (1 + (full.drop 1).length)).take 0 ++ full.take 1 ++
+      (L.take 1 ++ full.drop 1 ++ L.drop (1 + (full.drop 1).length)).drop (0 + (full.take 1).length)) =
+    full ++ L.drop (n + 1) := by
+  match full, L, hf, hL with
+  | h :: d, l0 :: L', hf, hL =>
+    simp only [List.length_cons, Nat.add_right_cancel_iff] at hf
+    simp [hf, Nat.add_comm]
+
+/-- lshift path: the low n limbs stored at rp[0, n), then the carry limb at rp[n] -/
+theorem two_writes_lo_hi (L full : List Nat) (n : Nat) (hf : full.length = n + 1) :
+    ((L.take 0 ++ full.take n ++ L.drop (0 + (full.take n).length)).take n ++ full.drop n ++
+      (L.take 0 ++ full.take n ++ L.drop (0 + (full.take n).length)).drop (n + (full.drop n).length)) =
+    full ++ L.drop (n + 1) := by
+  have h1 : (full.take n).length = n := by rw [List.length_take]; omega
+  have h2 : (full.drop n).length = 1 := by rw [List.length_drop]; omega
+  rw [h1, h2]
+  simp only [List.take_zero, List.nil_append, Nat.zero_add]
+  have e1 : (full.take n ++ L.drop n).take n = full.take n := by
+    rw [List.take_append_of_le_length (by omega), List.take_of_length_le (by omega)]
+  have e2 : (full.take n ++ L.drop n).drop (n + 1) = L.drop (n + 1) := by
+    rw [List.drop_append, h1]
+    have : (full.take n).drop (n + 1) = [] := List.drop_eq_nil_of_le (by omega)
+    rw [this]; simp
+  rw [e1, e2, List.take_append_drop]
+
+
+/-- the shift arm: both paths stay inside the PREC + 1 limbs and leave `Mpf.shiftUp` of the selected limbs in rp[0, n + adj) -/
+theorem shiftArm_spec (s : St) (x : Src) (k : Nat) (hs : s.ok = true) (hr : DestWF s.r) (hx : OpndWF (s.obj x)) :
+    Fr s (shiftArm 0 s x k).1 ∧
+    (shiftArm 0 s x k).2.2 = (Mpf.shiftUp (Mpf.top s.r.prec (s.obj x).view.d) k).2 ∧
+    (shiftArm 0 s x k).1.r.blk.limbs.take ((shiftArm 0 s x k).2.1 + (shiftArm 0 s x k).2.2) =
+      (Mpf.shiftUp (Mpf.top s.r.prec (s.obj x).view.d) k).1 ∧
+    ((shiftArm 0 s x k).1.r.blk.limbs.take ((shiftArm 0 s x k).2.1 + (shiftArm 0 s x k).2.2)).length =
+      (shiftArm 0 s x k).2.1 + (shiftArm 0 s x k).2.2 := by
+  obtain ⟨hrb, hra⟩ := hr
+  obtain ⟨hxb, hxa⟩ := hx
+  have hxl : (s.obj x).size.natAbs ≤ (s.obj x).blk.limbs.length := by rw [hxb]; exact hxa
+  have hsel := sel_top (s.obj x).blk.limbs (s.obj x).size.natAbs s.r.prec hxl
+  unfold shiftArm
+  simp only [Nat.add_zero, FObj.view]
+  generalize hasz : (s.obj x).size.natAbs = asize at hxl hxa hsel
+  generalize hP : s.r.prec = P at hra hsel
+  rw [← hsel]
+  have hrl : P + 1 ≤ s.r.blk.limbs.length := by rw [hrb]; exact hra
+  by_cases c : asize > P
+  · simp only [if_pos c]
+    have A := rd_spec s x (asize - P) P hs (by omega)
+    simp only [A.1, A.2]
+    generalize hup : List.take P (List.drop (asize - P) (s.obj x).blk.limbs) = up
+    have hupl : up.length = P := by rw [← hup, List.length_take, List.length_drop]; omega
+    generalize hfull : toLimbs (P + 1) (val up * 2 ^ k) = full
+    have hfl : full.length = P + 1 := by rw [← hfull, Mpf.toLimbs_length]
+    obtain ⟨a1, a2, a3, _, a4, _, _, a7, a8, a9⟩ := wrR_spec s 1 (full.drop 1) hs hrb (by rw [List.length_drop]; omega)
+    obtain ⟨b1, b2, b3, _, b4, _, _, b7, b8, b9⟩ := wrR_spec (s.wrR 1 (full.drop 1)) 0 (full.take 1) a1 a8
+      (by rw [a7, List.length_take]; omega)
+    have T := rd_spec ((s.wrR 1 (full.drop 1)).wrR 0 (full.take 1)) .r P 1 b1 (by show P + 1 ≤ ((s.wrR 1 (full.drop 1)).wrR 0 (full.take 1)).r.blk.alloc; rw [b7, a7]; exact hra)
+    simp only [T.1]
+    have hlim : ((s.wrR 1 (full.drop 1)).wrR 0 (full.take 1)).r.blk.limbs = full ++ s.r.blk.limbs.drop (P + 1) := by
+      rw [b9, a9]; exact two_writes_hi_lo s.r.blk.limbs full P hfl hrl
+    refine ⟨⟨b1, b2.trans a2, b3.trans a3, b4.trans a4, b7.trans a7, b8⟩, ?_, ?_, ?_⟩
+    · simp only [Mpf.shiftUp, hupl, hfull]
+    · simp only [Mpf.shiftUp, hupl, hfull, hlim]
+      rw [List.take_append_of_le_length (by rw [hfl]; split <;> omega)]
+    · rw [List.length_take, hlim, List.length_append, hfl]; split <;> omega
+  · simp only [if_neg c]
+    have A := rd_spec s x 0 asize hs (by omega)
+    simp only [A.1, A.2]
+    generalize hup : List.take asize (List.drop 0 (s.obj x).blk.limbs) = up
+    have hupl : up.length = asize := by rw [← hup, List.length_take, List.length_drop]; omega
+    generalize hfull : toLimbs (asize + 1) (val up * 2 ^ k) = full
+    have hfl : full.length = asize + 1 := by rw [← hfull, Mpf.toLimbs_length]
+    obtain ⟨a1, a2, a3, _, a4, _, _, a7, a8, a9⟩ := wrR_spec s 0 (full.take asize) hs hrb (by rw [List.length_take]; omega)
+    obtain ⟨b1, b2, b3, _, b4, _, _, b7, b8, b9⟩ := wrR_spec (s.wrR 0 (full.take asize)) asize (full.drop asize) a1 a8
+      (by rw [a7, List.length_drop]; omega)
+    have hlim : ((s.wrR 0 (full.take asize)).wrR asize (full.drop asize)).r.blk.limbs = full ++ s.r.blk.limbs.drop (asize + 1) := by
+      rw [b9, a9]; exact two_writes_lo_hi s.r.blk.limbs full asize hfl
+    refine ⟨⟨b1, b2.trans a2, b3.trans a3, b4.trans a4, b7.trans a7, b8⟩, ?_, ?_, ?_⟩
+    · simp only [Mpf.shiftUp, hupl, hfull]
+    · simp only [Mpf.shiftUp, hupl, hfull, hlim]
+      rw [List.take_append_of_le_length (by rw [hfl]; split <;> omega)]
+    · rw [List.length_take, hlim, List.length_append, hfl]; split <;> omega
+
+
+/-- the whole-limb arm: at most PREC + 1 limbs copied (none when rp == up), leaving `Mpf.top (PREC + 1)` of the operand -/
+theorem copyArm_spec (s : St) (x : Src) (hs : s.ok = true) (hr : DestWF s.r) (hx : OpndWF (s.obj x)) :
+    Fr s (copyArm 0 s x).1 ∧ (copyArm 0 s x).1.r.size = s.r.size ∧ (copyArm 0 s x).1.r.exp = s.r.exp ∧
+    (copyArm 0 s x).1.r.blk.limbs.take (copyArm 0 s x).2 = Mpf.top (s.r.prec + 1) (s.obj x).view.d ∧
+    (Mpf.top (s.r.prec + 1) (s.obj x).view.d).length = (copyArm 0 s x).2 := by
+  obtain ⟨hrb, hra⟩ := hr
+  obtain ⟨hxb, hxa⟩ := hx
+  have hxl : (s.obj x).size.natAbs ≤ (s.obj x).blk.limbs.length := by rw [hxb]; exact hxa
+  have hsel := sel_top (s.obj x).blk.limbs (s.obj x).size.natAbs (s.r.prec + 1) hxl
+  unfold copyArm
+  simp only [Nat.add_zero, FObj.view]
+  generalize hasz : (s.obj x).size.natAbs = asize at hxl hxa hsel
+  generalize hp1 : s.r.prec + 1 = p1 at hra hsel
+  rw [← hsel]
+  generalize hoff : (if asize > p1 then asize - p1 else 0) = off
+  generalize hn : (if asize > p1 then p1 else asize) = n
+  have hb1 : off + n ≤ (s.obj x).blk.alloc := by subst hoff hn; split <;> omega
+  have hb2 : n ≤ s.r.blk.alloc := by subst hn; split <;> omega
+  have hlen : (List.take n (List.drop off (s.obj x).blk.limbs)).length = n := by
+    have := hxb; unfold BlkWF at this
+    rw [List.length_take, List.length_drop]; omega
+  by_cases c : x = .r ∧ off = 0
+  · rw [if_pos c]
+    obtain ⟨cx, co⟩ := c
+    subst cx co
+    exact ⟨⟨hs, rfl, rfl, rfl, rfl, hrb⟩, rfl, rfl, by simp [St.obj], hlen⟩
+  · rw [if_neg c]
+    have C := copyToR_spec s x off n hs hrb hxb hb1 hb2
+    exact ⟨⟨C.1, C.2.1, C.2.2.1, C.2.2.2.1, C.2.2.2.2.2.2.1, C.2.2.2.2.2.2.2.1⟩, C.2.2.2.2.1, C.2.2.2.2.2.1,
+      C.2.2.2.2.2.2.2.2, hlen⟩
+
+theorem natAbs_sg (c : Prop) [Decidable c] (n : Nat) : (if c then (n : Int) else -(n : Int)).natAbs = n := by
+  split <;> omega
+
 end Mpir.AllocSafe7
